@@ -31,6 +31,8 @@ def run_property(prop_id, tier, seed, replay=None):
             rp = json.load(f)
         cases = [rp["case"]]
     else:
+        from . import gen as _gen
+        _gen.TIER = tier
         cases = mod.cases(seed, tier)
     if not cases:
         print(f"INCONCLUSIVE property={prop_id} reason=no-cases")
